@@ -157,6 +157,7 @@ OWN_BASE = {
     "listop_pure": 0.7,
     "setattr": 1.5,
     "persist": 0.5,
+    "repr": 0.3,
 }
 
 
@@ -276,7 +277,19 @@ class OwnProfile(Profile):
         if fam == "aux":
             from . import ops_aux
 
+            x = r.random()
+            if x < 0.04:
+                return {"op": "foreign_serializer", "name": r.choice(["string", "uint8_t", "sequence", "UUID", "my_type", "mapping"]), "k": r.randrange(4)}
+            if x < 0.10:
+                ls = [l for l, n in w.m.nodes.items() if n.kind in ("ir", "mod")]
+                if ls:
+                    return {"op": "repr", "label": ls[r.randrange(len(ls))]}
             return ops_aux.gen_aux(w, r)
+        if fam == "repr":
+            ls = list(w.m.nodes)
+            if not ls:
+                return None
+            return {"op": "repr", "label": ls[r.randrange(len(ls))]}
         if fam == "persist":
             from . import gen_persist
 
@@ -443,6 +456,7 @@ INDEX_BASE = {
     "setattr": 0.5,
     "se": 2.0,
     "persist": 0.6,
+    "repr": 0.3,
 }
 INDEX_ATTRS = ("offset", "size", "address")
 
@@ -749,6 +763,7 @@ PERSIST_BASE = {
     "bytes": 0.7,
     "persist": 3.0,
     "peer": 0.6,
+    "repr": 0.5,
 }
 
 
